@@ -277,7 +277,7 @@ def build_cases(tier, rng):
     hex_ = exhaustive if not quick else exhaustive[::7]
     rest = [c for pair in itertools.zip_longest(hex_, smallrand[: (500 if quick else 20000)]) for c in pair if c is not None]
     # the extracted hill-climb model is list based (about 20 s for 300 ranges x 500 passes): few very large cases
-    hbig = [c for c in big if len(c) <= 160][: (2 if quick else 40)] + [c for c in big if len(c) > 160][: (0 if quick else 12)]
+    hbig = [c for c in big if len(c) <= 160][: (2 if quick else 25)] + [c for c in big if len(c) > 160][: (0 if quick else 6)]
     hill = corpus + hbig + mid[: (40 if quick else 1500)] + rest      # a time budget cuts the tail
     nz = 300 if quick else 5000
     zero = [gen_ranges(rng, rng.randint(2, 8), rng.randint(2, 6), [0, 0, 1, 16, 17, 100], ALIGNS) for _ in range(nz)]
@@ -445,7 +445,7 @@ def run(tier):
         adversarial = (k % 3 == 1)
         hcases.append((r, mi, lim, adversarial))
     himpl = []
-    hc_budget = 20 if tier == "quick" else 900
+    hc_budget = 20 if tier == "quick" else 300
     t_h = time.time()
     done_h = 0
     for r, mi, lim, adv in hcases:
